@@ -123,7 +123,9 @@ func checkCaseInfo(c Case) (f *evid.Failure, n int, failed bool) {
 	if len(out) < c.P || !bytes.Equal(out[:c.P], prefix) {
 		return &evid.Failure{Oracle: "result begins with b's bytes", Observed: fmt.Sprintf("len %d, head %q", len(out), head(out, c.P)), Expected: fmt.Sprintf("%q…", head(prefix, c.P)), Class: "prefix"}, n, failed
 	}
-	if err == nil && !bytes.Equal(out[c.P:], ref) {
+	// without SortMapKeys the member order of a map may differ between two calls: only the clauses about b apply
+	unordered := c.Fn == "Append" && c.Flags&uint32(segjson.SortMapKeys) == 0 && hasMap(c.Type.Type(), map[reflect.Type]bool{})
+	if err == nil && !unordered && !bytes.Equal(out[c.P:], ref) {
 		return &evid.Failure{Oracle: "Append(b,v)[len(b):] == Append(nil,v)", Observed: fmt.Sprintf("%q", head(out[c.P:], 300)), Expected: fmt.Sprintf("%q", head(ref, 300)), Class: "suffix"}, n, failed
 	}
 	for i := 0; i < g; i++ {
@@ -219,7 +221,7 @@ func TestAppend(t *testing.T) {
 		for i := 0; i < nv; i++ {
 			c := Case{Fn: "Append", Type: td, Value: jgen.GenValue(rt, typ, vo), ByPtr: rapid.Bool().Draw(rt, "byptr")}
 			c.Flags = uint32(rapid.IntRange(0, 7).Draw(rt, "flags"))
-			if hasMap(typ, map[reflect.Type]bool{}) {
+			if hasMap(typ, map[reflect.Type]bool{}) && rapid.IntRange(0, 3).Draw(rt, "sorted") > 0 {
 				c.Flags |= uint32(segjson.SortMapKeys)
 			}
 			ngeom := rapid.IntRange(1, 3).Draw(rt, "ngeom")
